@@ -11,7 +11,10 @@ package blocklist
 //   serve*    ServeDNS in a Chain ahead of a counting stub, decoded and wire-born requests
 //   history   sequential API calls with return values, final memory, final `local` file
 //   conc      concurrent API calls (disjoint keys per goroutine), final memory and file
+//   sched     forced schedules: mutation+snapshotLocked under mu, persist() of the outstanding
+//             snapshots in an arbitrary order (newest first included)
 //   reload*   a fresh BlockList over the directory another one wrote
+//   parse-hosts  list files in hosts / plain-domain syntax (comments, aliases, tabs, CRLF) loaded by New
 //   crash*    a child process applies one API call and is killed by the kernel when
 //             the temp file reaches a chosen size (RLIMIT_FSIZE + default SIGXFSZ);
 //             the directory it leaves behind and a reload of it
@@ -190,9 +193,12 @@ func vC18Entry(r *rand.Rand, base []string) string {
 		// related to an existing entry: child or parent (redundant entries)
 		e := strings.TrimPrefix(base[r.Intn(len(base))], "*.")
 		if r.Intn(2) == 0 {
-			n = vC18Labels[r.Intn(len(vC18Labels))] + "." + e
+			n = vC18Labels[r.Intn(len(vC18Labels))] + "." + strings.TrimPrefix(e, ".")
 		} else {
 			n = vC18Parent(e)
+		}
+		if strings.Contains(n, "..") || strings.HasPrefix(n, ".") && n != "." {
+			n = vC18Name(r)
 		}
 	} else {
 		n = vC18Name(r)
@@ -724,7 +730,7 @@ func vC18KeyPool(r *rand.Rand, prefix string, special bool) []string {
 	var pool []string
 	for i := 0; i < n; i++ {
 		e := vC18Entry(r, pool)
-		if e == "" || e == "*" || strings.HasPrefix(e, "a..b.") {
+		if e == "" || e == "*" || strings.Contains(e, "..") {
 			e = vC18Name(r)
 		}
 		if prefix != "" {
@@ -916,6 +922,167 @@ func vC18CaseConc(t *testing.T, r *rand.Rand, out *vC18Out) {
 	}
 }
 
+// the body of one API call up to the point where mu is released: mutation and
+// snapshotLocked under the lock, exactly as Set/Remove/SetBatch/RemoveBatch do it
+func vC18MutateLocked(b *BlockList, op vC18Op) (bool, blockSnapshot) {
+	b.mu.Lock()
+	defer b.mu.Unlock()
+	n := 0
+	switch op.Kind {
+	case "set":
+		if b.setLocked(op.Keys[0]) {
+			n++
+		}
+	case "remove":
+		if b.removeLocked(op.Keys[0]) {
+			n++
+		}
+	case "setbatch":
+		for _, k := range op.Keys {
+			if b.setLocked(k) {
+				n++
+			}
+		}
+	default:
+		for _, k := range op.Keys {
+			if b.removeLocked(k) {
+				n++
+			}
+		}
+	}
+	if n == 0 {
+		return false, blockSnapshot{}
+	}
+	return true, b.snapshotLocked()
+}
+
+// forced schedules: snapshots reach persist() in an arbitrary order, interleaved with later mutations
+func vC18CaseSched(t *testing.T, r *rand.Rand, out *vC18Out) {
+	dir := vC18Dir(t)
+	cfg := vC18Cfg(r, dir)
+	pool := vC18KeyPool(r, "", false)
+	cfg.Whitelist = vC18Whitelist(r, pool)
+	b := vC18NewQuiet(cfg)
+	m0, wild0, w := vC18Dump(b)
+	nmut := 2 + r.Intn(5)
+	var pending []blockSnapshot
+	var parts []string
+	var desc []any
+	done := 0
+	for done < nmut || len(pending) > 0 {
+		if done < nmut && (len(pending) == 0 || r.Intn(2) == 0) {
+			op := vC18RandOp(r, pool)
+			ok, snap := vC18MutateLocked(b, op)
+			done++
+			if ok {
+				pending = append(pending, snap)
+			}
+			parts = append(parts, fmt.Sprintf("SMut (%s) %s %s", op.coq(), vC18List(snap.exact), vC18List(snap.wild)))
+			desc = append(desc, []any{"mutate", op.Kind, op.Keys, "snapshot", ok, snap.version})
+			continue
+		}
+		i := r.Intn(len(pending))
+		if r.Intn(3) == 0 {
+			i = len(pending) - 1 // newest first: the older ones must then be dropped
+		}
+		snap := pending[i]
+		pending = append(pending[:i:i], pending[i+1:]...)
+		b.persist(snap)
+		parts = append(parts, fmt.Sprintf("SPersist %d", i))
+		desc = append(desc, []any{"persist", i, "version", snap.version})
+	}
+	m1, wild1, _ := vC18Dump(b)
+	present, file := vC18ReadLocal(dir)
+	out.emit("sched", fmt.Sprintf("CaseSched %s %s %s [%s] %s %s %s", vC18List(m0), vC18List(wild0), vC18List(w), strings.Join(parts, "; "),
+		vC18List(m1), vC18List(wild1), vC18OptStr(present, file)),
+		map[string]any{"w": w, "steps": desc, "m1": m1, "wild1": wild1, "file_present": present, "file": file}, present, "", "")
+}
+
+// hosts-format and plain-domain list files as a downloaded list would look, next to `local`
+func vC18CaseParse(t *testing.T, r *rand.Rand, out *vC18Out) {
+	dir := vC18Dir(t)
+	var whitelist []string
+	if r.Intn(3) == 0 {
+		whitelist = []string{vC18Spell(r, vC18Name(r))}
+	}
+	genFile := func() string {
+		var sb strings.Builder
+		n := 1 + r.Intn(7)
+		for i := 0; i < n; i++ {
+			nm := func() string {
+				x := vC18Spell(r, vC18Name(r))
+				if r.Intn(6) == 0 {
+					x = "*." + x
+				}
+				return x
+			}
+			var line string
+			switch r.Intn(14) {
+			case 0:
+				line = nm()
+			case 1:
+				line = "0.0.0.0 " + nm()
+			case 2:
+				line = "127.0.0.1\t" + nm() + " " + nm() + "  " + nm()
+			case 3:
+				line = nm() + " # comment " + nm()
+			case 4:
+				line = "0.0.0.0 " + nm() + " #" + nm()
+			case 5:
+				line = "# " + nm()
+			case 6:
+				line = ""
+			case 7:
+				line = "   \t "
+			case 8:
+				line = "\t" + nm() + "\t"
+			case 9:
+				line = "0.0.0.0 " + nm() + " #" + nm() + " " + nm()
+			case 10:
+				line = nm() + "#" + nm()
+			case 11:
+				line = "  :: " + nm() + " " + nm()
+			case 12:
+				line = nm() + " " + nm()
+			default:
+				line = "0.0.0.0 " + nm() + " " + nm()
+			}
+			if r.Intn(8) == 0 {
+				line += "\r"
+			}
+			sb.WriteString(line)
+			if i < n-1 || r.Intn(4) > 0 {
+				sb.WriteString("\n")
+			}
+		}
+		return sb.String()
+	}
+	names := []string{"ads.list", "zz-hosts.txt"}
+	if r.Intn(2) == 0 {
+		names = names[:1]
+	}
+	var files []string
+	for _, nme := range names {
+		c := genFile()
+		if err := os.WriteFile(filepath.Join(dir, nme), []byte(c), 0o644); err != nil {
+			t.Fatal(err)
+		}
+		files = append(files, c)
+	}
+	cfg := vC18Cfg(r, dir)
+	cfg.Whitelist = whitelist
+	var cfgBlock []string
+	if r.Intn(3) == 0 {
+		cfgBlock = []string{vC18Spell(r, vC18Name(r))}
+		cfg.Blocklist = cfgBlock
+	}
+	b := New(cfg)
+	m, wild, w := vC18Dump(b)
+	out.emit("parse-hosts", fmt.Sprintf("CaseReload %s %s %s %s %s %s %s %s", vC18List(whitelist), vC18List(cfgBlock), vC18List(files),
+		vC18List(m), vC18List(wild), vC18List(m), vC18List(wild), vC18List(w)),
+		map[string]any{"whitelist": whitelist, "blocklist": cfgBlock, "files": files, "loaded_m": m, "loaded_wild": wild}, len(m)+len(wild) > 0, "", "")
+}
+
 // ---------------------------------------------------------------- interruption
 
 type vC18ChildSpec struct {
@@ -989,7 +1156,9 @@ func vC18CaseCrash(t *testing.T, r *rand.Rand, out *vC18Out) {
 			t.Fatal(err)
 		}
 		ref := vC18NewQuiet(&config.Config{BlockListDir: refDir, Whitelist: whitelist})
+		oldM, oldWild, _ := vC18Dump(ref)
 		if op.apply(ref) > 0 {
+			newM, newWild, _ := vC18Dump(ref)
 			_, nf := vC18ReadLocal(ref.cfg.BlockListDir)
 			total := len(nf)
 			var limit int
@@ -1048,10 +1217,12 @@ func vC18CaseCrash(t *testing.T, r *rand.Rand, out *vC18Out) {
 			if len(temps) > 0 {
 				fkey = vC18KeyTemp
 			}
-			out.emit(k, fmt.Sprintf("CaseCrash %s %s (%s) %d %s %s %s %s", vC18List(whitelist), vC18Str(old), op.coq(), limit,
-				vC18OptStr(present, local), vC18List(temps), vC18List(rm), vC18List(rwild)),
+			out.emit(k, fmt.Sprintf("CaseCrash %s %s (%s) %d %s %s %s %s %s %s %s %s", vC18List(whitelist), vC18Str(old), op.coq(), limit,
+				vC18OptStr(present, local), vC18List(temps), vC18List(rm), vC18List(rwild),
+				vC18List(oldM), vC18List(oldWild), vC18List(newM), vC18List(newWild)),
 				map[string]any{"whitelist": whitelist, "old_file": old, "op": []any{op.Kind, op.Keys}, "limit": limit, "killed_by_SIGXFSZ": killed,
-					"local_after": local, "temp_files_after": temps, "reloaded_m": rm, "reloaded_wild": rwild}, true, "", fkey)
+					"local_after": local, "temp_files_after": temps, "reloaded_m": rm, "reloaded_wild": rwild,
+					"previous_m": oldM, "previous_wild": oldWild, "new_m": newM, "new_wild": newWild}, true, "", fkey)
 			return
 		}
 		if try > 20 {
@@ -1078,18 +1249,22 @@ func TestVerifC18(t *testing.T) {
 	r := rand.New(rand.NewSource(seed*1000003 + 18))
 	for c := 0; out.n < n && c < 4*n; c++ {
 		switch x := r.Intn(100); {
-		case x < 40:
+		case x < 36:
 			vC18CaseExists(t, r, out)
-		case x < 58:
+		case x < 54:
 			vC18CaseServe(t, r, out)
-		case x < 62:
+		case x < 57:
 			vC18CaseEscDot(t, r, out)
-		case x < 78:
+		case x < 73:
 			vC18CaseHistory(t, r, out, false)
-		case x < 83:
+		case x < 78:
 			vC18CaseHistory(t, r, out, true)
-		case x < 90:
+		case x < 81:
 			vC18CaseConc(t, r, out)
+		case x < 86:
+			vC18CaseSched(t, r, out)
+		case x < 90:
+			vC18CaseParse(t, r, out)
 		default:
 			vC18CaseCrash(t, r, out)
 		}
